@@ -1174,7 +1174,7 @@ void World::doSave(const Step &st, StepRecord &rec) {
     }
     if (good) {
         Saved sv;
-        sv.path = path; sv.snap = cur; sv.image = img; sv.writer_gen = gen; sv.writer_pristine = pristine; sv.source = loaded_from; sv.premise_broken = premise_broken; sv.complete = frames_complete(cur); sv.model = model; sv.api_lineage = api_lineage;
+        sv.path = path; sv.snap = cur; sv.image = img; sv.writer_gen = gen; sv.writer_pristine = pristine; sv.source = loaded_from; sv.premise_broken = premise_broken; sv.complete = frames_complete(cur) || (pristine && gen >= 1); /* content that came from a file and was not edited is a valid C04 subject whatever its labels look like */ sv.model = model; sv.api_lineage = api_lineage;
         // replace an older entry for the same path
         bool rep = false;
         for (auto &s : saved) if (s.path == path) { s = sv; rep = true; break; }
